@@ -1,4 +1,5 @@
 import Lemmas.Conserve
+import Lemmas.RemMono
 import Lemmas.Demo
 import Model.Program
 /-!
@@ -166,6 +167,37 @@ theorem step_rem_prefix (s : PState) (t : Str) : ∃ more, (step ext mode s t).r
         have e1 : s1.rem = s.rem := by have := hf.1; rw [hoff] at this; exact this
         obtain ⟨m, h⟩ := hfeed s1.pending s1
         exact ⟨m, by rw [h, e1]⟩
+
+/-- **Whole command line, Pass / Warn mode**: an option token given where an option may start, whose
+name is not declared at that level (unknown-mode of the level not `fail`), is in the remaining list of
+the *finished* parse, verbatim and at its original position relative to everything kept before it —
+whatever comes before and after it. -/
+theorem unknown_token_kept (P : Prog) (pre post : List Str) (t : Str) (p : Pair)
+    (he : (run ext mode P pre).err = none) (hc : (run ext mode P pre).ctx = .idle)
+    (hopt : isOption t mode = ([p], true))
+    (hr : resolve ((run ext mode P pre).P.node (run ext mode P pre).cur) p.opt = [])
+    (hu : ((run ext mode P pre).P.node (run ext mode P pre).cur).umode ≠ .fail) :
+    ∃ more, (parseArgs ext mode P (pre ++ t :: post)).rem = (run ext mode P pre).rem ++ t :: more := by
+  unfold parseArgs
+  rw [run_append]
+  simp only [List.foldl_cons]
+  have hd : t ≠ dashdash := by intro e; subst e; simp [isOption, dashdash] at hopt
+  have h1 : (step ext mode (run ext mode P pre) t).rem = (run ext mode P pre).rem ++ [t] := by
+    rw [step_head_option ext mode _ t [p] he hc hd hopt]
+    unfold drain
+    simp only
+    cases hro : ((run ext mode P pre).P.node (run ext mode P pre).cur).requireOrder with
+    | true =>
+      rw [procPair_unknown_ro ext _ p (by simpa [headState] using hr) (by simpa [headState] using hro)]
+      simp [headState, PState.addText, he]
+    | false =>
+      rw [procPair_unknown ext _ p (by simpa [headState] using hr) (by simpa [headState] using hro)]
+      have hum : (((run ext mode P pre).P.node (run ext mode P pre).cur).umode != UMode.fail) = true := by
+        simpa using hu
+      simp [headState, PState.addText, he, hc, hum, drain]
+  obtain ⟨m2, h2⟩ := foldl_rem_prefix' ext mode post (step ext mode (run ext mode P pre) t)
+  obtain ⟨m3, h3⟩ := finish_rem_prefix' ext (post.foldl (step ext mode) (step ext mode (run ext mode P pre) t))
+  exact ⟨m2 ++ m3, by rw [h3, h2, h1]; simp⟩
 
 /-! Non-vacuity and the formerly failing inputs (now theorems about concrete runs). -/
 
